@@ -822,6 +822,21 @@ def bool_histories(seed, n, prop="C03", asc_widen=False):
                         cs.pop(fl, None)
                         rest = [y for y in range(nb) if y not in (b, fl)]
                         o1 = rng.choice(rest)
+                        if rng.random() < 0.3:
+                            # the result is also the condition, and changes its (decided) value
+                            fv = rng.randrange(2)
+                            ops[-1] = "bassign %d %d %s" % (r, fl, ["C lt E 0 0", "C le E 0 0"][fv])
+                            ops.append("bassign %d %d %s" % (r, o1, ["C le E 0 0", "C ne E 0 0"][fv]))
+                            cs.pop(o1, None)
+                            ops.append("bselect %d %d %d %d %d" % ((r, fl, fl) + ((b, o1) if fv == 0 else (o1, b))))
+                            y = rng.choice([z for z in range(nb) if z != fl])
+                            ops.append("bcopy %d %d %d %d" % (r, y, fl, rng.randrange(2)))
+                            cs.pop(y, None)
+                            for z in (fl, o1, y):
+                                if z not in known:
+                                    known.append(z)
+                            focus += [fl, y]
+                            continue
                         if rng.random() < 0.5:
                             ops.append(rng.choice(["bforget %d %d" % (r, o1), "bforget %d %d" % (r, o1), "bassign %d %d %s" % (r, o1, _bcst(rng, nv))]))
                         lhs = rng.choice(rest + [fl])
